@@ -276,7 +276,7 @@ func main() {
 			}()
 			select {
 			case <-finished:
-			case <-time.After(12 * time.Second):
+			case <-time.After(12*time.Second + time.Duration(hx.Int(op["rounds"]))*200*time.Millisecond):
 				// the call hangs: report it and abandon this environment (and the rest of the history)
 				obs = append(obs, map[string]any{"op": kind, "hang": true, "ms": time.Since(t0).Milliseconds()})
 				env = nil
